@@ -10,6 +10,15 @@ import NeumannModel.Rel.Model
     cidx h|o <col>     didx h|o <col>                                                     → ok | err <e>
     q select|scan|count|columnar <cond>      q limit <n> <off> <cond>     q cursor <batch> <cond>
     dump                                                                                  → id=v,v;id=v,v | -
+    bins <nrows> <val>...   (nrows * width values, row-major)                             → ok <id>,<id> | err <e>
+    q iter <limit|-> <off> <cond>     q cursorm <batch> <max|-> <cond>
+    q router <limit|-> <off|-> <cond>     q routerl <limit|-> <cond>
+    q countcol <col> <cond>  → ok <n> | err col_not_found       q sum <col> <cond> → <val>,<val> | -
+    q min|max <col> <cond>   → <val> | none          (aggregate column `_id` = a name no row has)
+    q aggs <col> <cond>      → countcol=<..> terms=<..> min=<..> max=<..>   (the four answers above in one line)
+    evald <mx> <d> <id> <nvals> <val>... <cond>                                           → ok 0|1 | err too_deep
+    qd <mx> select|count|columnar <cond>    qd <mx> limit <n> <off> <cond>                → <answer> | err too_deep
+    deld <mx> <cond>     updd <mx> <k> (c<j> <val>)*k <cond>                              → ok <n> | err <e> | err too_deep
     vcmp <val> <val>                                                                      → eq=0|1 cmp=lt|eq|gt|none
   values: n | i<int> | f<16 hex digits> | s<hex> | b0 | b1 | y<hex>      columns: _id | c<index>
   conditions (prefix): T | eq|ne|lt|le|gt|ge <col> <val> | and <c> <c> | or <c> <c>
@@ -103,6 +112,28 @@ def dumpRows (t : Table) : String :=
   if live.isEmpty then "-"
   else ";".intercalate (live.map fun r => toString r.id ++ "=" ++ ",".intercalate (r.vals.map showVal))
 
+
+def parseOptNat (s : String) : Option (Option Nat) :=
+  if s = "-" then some none else s.toNat?.map some
+
+/-- aggregate column: `c<i>`; `_id` is not a stored column (`Row::get("_id")` is `None`) -/
+def parseAggCol (s : String) : Option Nat :=
+  if s = "_id" then some 1000000
+  else match parseCol s with
+    | some (.col i) => some i
+    | _ => none
+
+def showVals (vs : List Value) : String :=
+  if vs.isEmpty then "-" else ",".intercalate (vs.map showVal)
+
+def chunk (w : Nat) : Nat → List Value → List (List Value)
+  | 0, _ => []
+  | n + 1, vs => vs.take w :: chunk w n (vs.drop w)
+
+def showE {α : Type} (f : α → String) : Except Unit α → String
+  | .ok a => f a
+  | .error _ => "err too_deep"
+
 def relStep (t : Table) (line : String) : Table × String :=
   let bad := (t, "bad-op")
   match words line with
@@ -148,6 +179,66 @@ def relStep (t : Table) (line : String) : Table × String :=
       | some n, some off, some c => (t, showNats (selectLimit t c n off)) | _, _, _ => bad
   | "q" :: "cursor" :: b :: crest => match b.toNat?, parseWholeCond crest with
       | some b, some c => if b = 0 then bad else (t, showNats (cursorSelect t c b)) | _, _ => bad
+  | "bins" :: n :: vs => match n.toNat?, vs.mapM parseVal with
+      | some n, some vals =>
+        if vals.length ≠ n * t.schema.length then bad else
+          (match batchInsert t (chunk t.schema.length n vals) with
+           | .ok (t', ids) => (t', "ok " ++ showNats ids) | .error e => (t, "err " ++ showErr e))
+      | _, _ => bad
+  | "q" :: "iter" :: l :: off :: crest => match parseOptNat l, off.toNat?, parseWholeCond crest with
+      | some l, some off, some c => (t, showNats (selectIter t c l off)) | _, _, _ => bad
+  | "q" :: "cursorm" :: b :: mx :: crest => match b.toNat?, parseOptNat mx, parseWholeCond crest with
+      | some b, some mx, some c => if b = 0 then bad else (t, showNats (cursorSelectMax t c b mx)) | _, _, _ => bad
+  | "q" :: "router" :: l :: off :: crest => match parseOptNat l, parseOptNat off, parseWholeCond crest with
+      | some l, some off, some c => (t, showNats (routerSelect t c l off)) | _, _, _ => bad
+  | "q" :: "routerl" :: l :: crest => match parseOptNat l, parseWholeCond crest with
+      | some l, some c => (t, showNats (routerSelectLegacy t c l)) | _, _ => bad
+  | "q" :: "aggs" :: col :: crest => match parseAggCol col, parseWholeCond crest with
+      | some i, some c =>
+        let cc := match countColumn t i c with | .ok n => s!"ok {n}" | .error e => "err " ++ showErr e
+        let sv := fun (o : Option Value) => match o with | some v => showVal v | none => "none"
+        (t, s!"countcol={cc} terms={showVals (aggSumTerms t i c)} min={sv (aggMin t i c)} max={sv (aggMax t i c)}")
+      | _, _ => bad
+  | "q" :: "countcol" :: col :: crest => match parseAggCol col, parseWholeCond crest with
+      | some i, some c => (match countColumn t i c with
+          | .ok n => (t, s!"ok {n}") | .error e => (t, "err " ++ showErr e))
+      | _, _ => bad
+  | "q" :: "sum" :: col :: crest => match parseAggCol col, parseWholeCond crest with
+      | some i, some c => (t, showVals (aggSumTerms t i c)) | _, _ => bad
+  | "q" :: "min" :: col :: crest => match parseAggCol col, parseWholeCond crest with
+      | some i, some c => (t, match aggMin t i c with | some v => showVal v | none => "none") | _, _ => bad
+  | "q" :: "max" :: col :: crest => match parseAggCol col, parseWholeCond crest with
+      | some i, some c => (t, match aggMax t i c with | some v => showVal v | none => "none") | _, _ => bad
+  | "evald" :: mx :: d :: id :: n :: rest => match mx.toNat?, d.toNat?, id.toNat?, n.toNat? with
+      | some mx, some d, some id, some n =>
+        (match (rest.take n).mapM parseVal, parseWholeCond (rest.drop n) with
+         | some vals, some c =>
+           if vals.length ≠ n then bad
+           else (t, showE (fun b => if b then "ok 1" else "ok 0") (evalDepth mx c d id vals))
+         | _, _ => bad)
+      | _, _, _, _ => bad
+  | "qd" :: mx :: "select" :: crest => match mx.toNat?, parseWholeCond crest with
+      | some mx, some c => (t, showE showNats (selectE mx t c)) | _, _ => bad
+  | "qd" :: mx :: "count" :: crest => match mx.toNat?, parseWholeCond crest with
+      | some mx, some c => (t, showE toString (countE mx t c)) | _, _ => bad
+  | "qd" :: mx :: "columnar" :: crest => match mx.toNat?, parseWholeCond crest with
+      | some mx, some c => (t, showE showNats (columnarE mx t c)) | _, _ => bad
+  | "qd" :: mx :: "limit" :: n :: off :: crest => match mx.toNat?, n.toNat?, off.toNat?, parseWholeCond crest with
+      | some mx, some n, some off, some c => (t, showE showNats (selectLimitE mx t c n off)) | _, _, _, _ => bad
+  | "deld" :: mx :: crest => match mx.toNat?, parseWholeCond crest with
+      | some mx, some c => (match deleteE mx t c with
+          | .ok (t', n) => (t', s!"ok {n}") | .error _ => (t, "err too_deep"))
+      | _, _ => bad
+  | "updd" :: mx :: k :: rest => match mx.toNat?, k.toNat? with
+      | some mx, some k => (match parseSets k rest with
+          | some (sets, crest) => (match parseWholeCond crest with
+              | some c => (match updateE mx t c sets with
+                  | .ok (.ok (t', n)) => (t', s!"ok {n}")
+                  | .ok (.error e) => (t, "err " ++ showErr e)
+                  | .error _ => (t, "err too_deep"))
+              | none => bad)
+          | none => bad)
+      | _, _ => bad
   | ["dump"] => (t, dumpRows t)
   | ["vcmp", a, b] => match parseVal a, parseVal b with
       | some x, some y => (t, s!"eq={if Value.eq x y then 1 else 0} cmp={showOrd (partialCmp x y)}")
